@@ -51,6 +51,20 @@ P = {
         "Bound: depth and the burst alphabet (one member per dispatch branch plus blocks-to-follow / confirmed / SAP variants). Trusted: harness monitor, counter seam for secrets.token_bytes, constant clock.",
         "DESIGN.md §3 C08",
     ),
+    "C12": (
+        "model_checking",
+        "bounded-exhaustive enumeration (all one-field and two-field variations of two bases + full products where small, x bare / HRNP / HSTRP nesting) on the real Hytera codecs vs. an independent frame walker",
+        "Every implemented opcode of RRS (5), LP (2), TMP (8), RCP (17 + unknown service) x reliable flag x per-field alphabets, bare and nested in HRNP and HSTRP; the full product of HRNP header alphabets over all opcodes; 170 (more in thorough) HSTRP option lists of 0-3 options with data lengths 0-255. The harness's own frame walker recomputes service byte, opcode, length (per-service endianness), checksum, terminator, HRNP length/ones-complement checksum and the option TLV chain; parse -> serialise must give the same bytes and fields.",
+        "Bound: field alphabets (boundary + walking values for wide fields), interactions of >= 3 non-base fields only in the small full products. Trusted: harness frame walker and opcode tables transcribed from the kaitai specs, validated on 44 captured packets.",
+        "DESIGN.md §3 C12",
+    ),
+    "C13": (
+        "model_checking",
+        "bounded-exhaustive enumeration of 72-byte frames built by the harness from a field vector (full product kind x colour code x timeslot; all field pairs over two bases) through both real decoders and the serialiser",
+        "Frames are built from the byte layout of the kaitai spec with payloads of all 15 slot kinds; Burst.from_hytera_ipsc(bytes) and Burst.from_hytera_ipsc(IpSiteConnectProtocol) must agree on class, bits, timeslot, sequence, colour and ids, equal the field vector, and as_ipsc_bytes() must reproduce the frame on both paths; the 46 captured frames of the test-suite are run through the same oracle.",
+        "Bound: payload info bits come from captures / seeded voice payloads; ill-formed frames (undefined type values, non-zero id low byte) excluded as the statement does. Trusted: harness frame builder (reproduces the 46 captures).",
+        "DESIGN.md §3 C13",
+    ),
     "C14": (
         "model_checking",
         "complete enumeration of dense ranges and structured septet families on the real MBXML writers/readers vs. a harness varint reference",
